@@ -113,12 +113,12 @@ func runC02(c *Ctx) {
 	c.Rule("C02.S2", "CONFINED", "values loaded from the validator's key fields (rawSk, blsSk) reach a signing call only in the tabled functions; signVote and (*VoteBLSMgr).SignVote are called only from vote and signVote")
 	c.Min(8)
 	allowedSigners := map[string]string{
-		"(consensus/ucon.Voter).signVote":          "the vote payload (secp256k1 branch)",
-		"(consensus/ucon.VoteBLSMgr).SignVote":     "the vote payload (BLS branch)",
-		"(consensus/ucon.VoteDB).UpdateVoteData":   "the local vote record (round, index, kind) kept in the node database, never sent",
-		"(consensus/ucon.MessageHandler).sendMsg":  "the gossip envelope of an already built message",
-		"(consensus/ucon.Server).Seal":             "the hash of the block this node proposes",
-		"(consensus/ucon.Server).Prepare":          "the consensus data of the block this node proposes (SetSignature)",
+		"(consensus/ucon.Voter).signVote":         "the vote payload (secp256k1 branch)",
+		"(consensus/ucon.VoteBLSMgr).SignVote":    "the vote payload (BLS branch)",
+		"(consensus/ucon.VoteDB).UpdateVoteData":  "the local vote record (round, index, kind) kept in the node database, never sent",
+		"(consensus/ucon.MessageHandler).sendMsg": "the gossip envelope of an already built message",
+		"(consensus/ucon.Server).Seal":            "the hash of the block this node proposes",
+		"(consensus/ucon.Server).Prepare":         "the consensus data of the block this node proposes (SetSignature)",
 	}
 	isKeyField := func(f *types.Var) bool {
 		return f != nil && f.Pkg() != nil && f.Pkg().Path() == full(uconPkg) && (f.Name() == "rawSk" || f.Name() == "blsSk")
